@@ -73,6 +73,14 @@ def make_scratch(repo, groups, support):
     os.makedirs(vk)
     mods = []
     for g in list(support) + list(groups):
+        text = open(os.path.join(KDIR, g + ".rs")).read()
+        m = re.search(r"(?m)^//@inject\s+(\S+)", text)
+        if m:
+            # harnesses that need private items: appended INSIDE the module of the scratch copy's source file
+            target = os.path.join(d, m.group(1))
+            with open(target, "a") as f:
+                f.write("\n#[cfg(kani)]\n#[allow(unused, non_snake_case)]\nmod verif_%s {\n%s\n}\n" % (g, text))
+            continue
         shutil.copy(os.path.join(KDIR, g + ".rs"), os.path.join(vk, g + ".rs"))
         mods.append("pub mod %s;" % g)
     with open(os.path.join(vk, "mod.rs"), "w") as f:
